@@ -636,7 +636,7 @@ func ruleG3(c *Ctx) *RuleResult {
 			})
 		}
 		if n == 0 {
-			r.fail("muxerStream."+name+"|none", c.Pos(f.Pos()), "", name+" is incremented somewhere", "no increment found")
+			r.undecided("%s: %s — %s (the construct this rule is anchored on was not found: no verdict)", "muxerStream."+name+"|none", name+" is incremented somewhere", "no increment found")
 		}
 	}
 	// MEDIA-SEQUENCE = segmentDeleteCount; segment id = nextSegmentID; part id = nextPartID
@@ -680,7 +680,7 @@ func ruleG3(c *Ctx) *RuleResult {
 			})
 		}
 		if n == 0 {
-			r.fail(c.fieldName(p.dst)+"|none", c.Pos(p.dst.Pos()), "", p.desc, "no assignment found")
+			r.undecided("%s: %s — %s (the construct this rule is anchored on was not found: no verdict)", c.fieldName(p.dst)+"|none", p.desc, "no assignment found")
 		}
 	}
 	return r
@@ -839,7 +839,7 @@ func ruleG6(c *Ctx) *RuleResult {
 			r.fail(key, c.Pos(cv.Pos()), FuncName(fn), what, "converts "+cv.X.String()+": truncation announces a target smaller than a listed duration")
 		})
 		if n == 0 {
-			r.fail(spec.name+"|none", c.Pos(fn.Pos()), FuncName(fn), spec.name+"() rounds a floating-point duration", "no float→int conversion found")
+			r.undecided("%s: %s — %s (the construct this rule is anchored on was not found: no verdict)", spec.name+"|none", spec.name+"() rounds a floating-point duration", "no float→int conversion found")
 		}
 	}
 	return r
@@ -875,7 +875,7 @@ func ruleG7(c *Ctx) *RuleResult {
 		}
 	})
 	if len(rewrites) == 0 {
-		r.fail("hasPart|rollover", c.Pos(fn.Pos()), FuncName(fn), "a part index past the end of a complete segment is rewritten to part 0 of the next segment", "no `segmentID + 1` rewrite found")
+		r.undecided("%s: %s — %s (the construct this rule is anchored on was not found: no verdict)", "hasPart|rollover", "a part index past the end of a complete segment is rewritten to part 0 of the next segment", "no `segmentID + 1` rewrite found")
 		return r
 	}
 	for i, rw := range rewrites {
